@@ -247,7 +247,7 @@ def guardTable : List ((String × String × Nat) × GuardClass × String) := [
   (("pkg/filters/kafkabackend/kafka.go", "Kafka.Init", 1), .notCovered, "kind outside the first wave (external system or MQTT-only); no harness case instantiates it"),
   (("pkg/filters/proxy/loadbalance.go", "WeightedRandomLoadBalancer.ChooseServer", 1), .allow, "BUG site, unreachable: past the early return totalWeight is the positive sum of the positive weights the loop subtracts (repair 7c1d2bb, proved under C04); rand.Intn is only called with a positive argument"),
   (("pkg/filters/proxy/pool.go", "ServerPool.InjectResiliencePolicy", 4), .guard, "poolInjectOK (known finding Proxy.retryPolicy / Proxy.circuitBreakerPolicy)"),
-  (("pkg/filters/proxy/pool.go", "ServerPool.handle", 1), .allow, "BUG site, the wrapped handler only returns nil, ErrShortCircuited or a serverPoolError"),
+  (("pkg/filters/proxy/pool.go", "ServerPool.handle", 1), .guard, "retryWrapOnlyPassesHandlerError: panic(\"should not reach here\") is reached only if a wrapper returns an error that is neither ErrShortCircuited nor the handler's serverPoolError; regenerated fact: every return of the closure of RetryPolicy.Wrap returns nil or `err`, and `err` is only ever bound to handler(ctx) (retry_wrap_only_passes_handler_error); the circuit-breaker wrapper returns ErrShortCircuited or the handler's error; walked by the resilience-walk stream with contexts that end during a back-off"),
   (("pkg/filters/proxy/requestmatch.go", "StringMatcher.init", 1), .guard, "smInitOK (regexp.MustCompile guarded by format=regexp)"),
   (("pkg/filters/registry.go", "Register", 3), .allow, "process start (filters.Register from package init), not reachable from a spec"),
   (("pkg/filters/remotefilter/remotefilter.go", "RemoteFilter.limitRead", 2), .notCovered, "kind outside the first wave (external system or MQTT-only); no harness case instantiates it"),
